@@ -1267,7 +1267,12 @@ func (g *Gen) servicesLine(t *rapid.T, w *World, link *SessInfo) string {
 					return "SVSNICK " + old + " " + nn + " :1"
 				}
 			}
-			return "SVSNICK " + old + " guest" + fmt.Sprint(rapid.IntRange(1000, 9999).Draw(t, "guest")) + " :1"
+			// the fall-back nickname must be free as well (C14 quantifier): "SVSNICK guest1003 guest1003"
+			// was generated once the same number had been drawn twice, and renaming a session onto its own
+			// nickname is outside the property's domain (DESIGN 0.5)
+			if nn := "guest" + fmt.Sprint(rapid.IntRange(1000, 9999).Draw(t, "guest")); w.nickOwner(NickLower(nn)) == nil {
+				return "SVSNICK " + old + " " + nn + " :1"
+			}
 		}
 		return "PING :nosvsnick"
 	case 12:
